@@ -502,6 +502,7 @@ pub fn exec_line(sess: &mut Session, line: &str) -> String {
             let cp = cp_by_name(toks[1]).unwrap();
             hex_of_bytes(&cp.encode(&str_of_hex(toks[2]).unwrap()))
         }
+        "@fault_sweep" => crate::faults::sweep(toks[1].parse().unwrap(), toks[2], toks[3]),
         "@readonly_close" => {
             // close the current package (which was only read since it was opened) and report
             // how many writes reached the medium since the open and whether its bytes changed
